@@ -33,8 +33,19 @@ def _file_cls(**kw):
 
 def env_spec(kind, d, e, n, tag, transform, caps, file=False, scribble=False):
     """Returns dict(pt=..., kraus=lambda k: physical Kraus list, sigma=ancilla state)."""
-    v = M.generic_unitary(d, 3 + tag) if transform else None
-    if file:
+    v = M.generic_unitary(d, 3 + tag) if transform and transform != "G" else None
+    g = None
+    if transform == "G":
+        # a general invertible change of operator basis (not a unitary conjugation, not trace preserving)
+        rng = np.random.default_rng(900 + tag + d)
+        g = np.eye(d * d) + 0.35 * (rng.standard_normal((d * d, d * d)) + 1j * rng.standard_normal((d * d, d * d)))
+    if file and g is not None:
+        import functools
+        build = functools.partial(A.build_pt, cls=_file_cls, basis_g=g)
+    elif g is not None:
+        import functools
+        build = functools.partial(A.build_pt, basis_g=g)
+    elif file:
         import functools
         orig = A.build_pt
         build = functools.partial(orig, cls=_file_cls)
@@ -224,6 +235,13 @@ def cases_single(tier):
                                                        ["explicit", "computed"], ["pre", "float-then-int", "int-then-float"]):
         out.append({"fam": "work-buffers", "d": d, "n": n, "envs": [(kind, e, 1, True, caps)], "system": "H",
                     "control": ck, "scribble": True})
+    # process tensors stored in a general (non-unitary, non-trace-preserving) operator basis, in memory and file-backed
+    for (d, e), n, kind, caps, fil in itertools.product([(2, 3), (3, 2)], [1, 3], ["unitary", "rank3", "cptp"],
+                                                        ["explicit", "computed"], [False, True]):
+        c_ = {"fam": "general-basis", "d": d, "n": n, "envs": [(kind, e, 1, "G", caps)], "system": "H", "control": "pre"}
+        if fil:
+            c_["file"] = True
+        out.append(c_)
     # the initial state handed over in other memory layouts (same values)
     for (d, e), kind, sysk, lay in itertools.product([(2, 3), (3, 2)], ["unitary", "rank3", "cptp"], ["zero", "H(t)"],
                                                      ["F", "T-view", "strided"]):
